@@ -141,3 +141,9 @@ let () =
         let b x = if x then "1" else "0" in
         string_of_n f ^ " " ^ b (IndexFlags.reader_accepts d512 f) ^ " " ^ b (IndexFlags.reader_accepts (not d512) f)
     | _ -> "ERR args")
+
+(* c02.winhash <window hex> -> the window hash of the rule (Model/Chunker.v win_hash, generated table) *)
+let () =
+  Drv.register "c02.winhash" (fun args -> match args with
+    | [w] -> string_of_n (Chunker.win_hash (bytes_of_hex w))
+    | _ -> "ERR args")
